@@ -36,6 +36,8 @@ KF_PREPEPTIDE = "KF-C10-prepeptide-location-parts"
 KF_FUNCTION = "KF-C10-gene-function-colon"
 KF_PRE_SEQUENCE = "KF-C10-prepeptide-long-sequence"
 KF_PRECISION = "KF-C10-number-precision"
+KF_SMILES = "KF-C10-candidate-smiles-wrapped"
+KF_SIDE_TOOL = "KF-C10-sideloaded-tool-name-recursion"
 WORKERS = max(2, min(8, (os.cpu_count() or 4) // 2))
 
 
@@ -116,6 +118,10 @@ def attr_dump(obj: Any, depth: int = 0) -> Any:
     for name in _slots(obj):
         if name in SKIP_SLOTS or (depth == 0 and name in BASE_SLOTS):
             continue
+        if type(obj).__name__ == "GOQualifier" and name in ("ids", "descriptions"):
+            # the keys and values of `go_entries` again, in the order the terms were added (a re-read qualifier has
+            # them in the order of the ids): the mapping itself is compared
+            continue
         try:
             value = getattr(obj, name)
         except AttributeError:
@@ -153,6 +159,28 @@ def dump_feat(feature: Any, opaque: bool = False) -> Dict[str, Any]:
     return {"loc": loc_json(feature.location), "type": feature.type,
             "notes": list(feature.notes), "quals": qlist(quals),
             "byAS": bool(feature.created_by_antismash), "codon": feature._original_codon_start}
+
+
+def t2pks_quals(t2pks: Any) -> List[List[Any]]:
+    """the qualifiers a type II PKS annotation stands for, rendered here from its attributes"""
+    if t2pks is None:
+        return []
+    out = [["t2pks_starter_units", list(t2pks.starter_units)]]
+    if t2pks.malonyl_elongations:
+        out.append(["t2pks_malonyl_elongations", list(t2pks.malonyl_elongations)])
+        out.append(["t2pks_molecular_weights", [f"{combo} (Da): {weight:.3f}" for combo, weight in t2pks.molecular_weights.items()]])
+    if t2pks.product_classes:
+        out.append(["t2pks_product_classes", list(t2pks.product_classes)])
+    return out
+
+
+def dump_proto_feat(proto: Any) -> Dict[str, Any]:
+    """to the record model the type II PKS annotation of a protocluster is part of its free qualifiers"""
+    out = dump_feat(proto)
+    if proto.t2pks is not None:
+        # a re-read protocluster holds its leftovers in the (sorted) order of the written feature
+        out["quals"] = sorted(out["quals"] + t2pks_quals(proto.t2pks), key=lambda q: q[0])
+    return out
 
 
 def dump_meta(rec: Any) -> Dict[str, Any]:
@@ -215,7 +243,7 @@ def dump_record(rec: Any) -> Dict[str, Any]:
         "others": [dump_feat(f, opaque=f.type in OPAQUE_TYPES) for f in plain],
         "cdss": [dump_feat(f, opaque=True) for f in rec.get_cds_features()],
         "subs": [{"feat": dump_feat(s), "tool": s.tool, "label": s.label, "side": dump_side(s)} for s in subs],
-        "protos": [{"feat": dump_feat(p), "core": common.location_json(p.core_location), "tool": p.tool,
+        "protos": [{"feat": dump_proto_feat(p), "core": common.location_json(p.core_location), "tool": p.tool,
                     "product": p.product, "cutoff": int(p.cutoff), "nbhd": int(p.neighbourhood_range),
                     "rule": p.detection_rule, "category": p.product_category, "side": dump_side(p)} for p in protos],
         "cands": [{"feat": dump_feat(c), "kind": str(c.kind), "children": [index[id(p)] for p in c.protoclusters],
@@ -433,6 +461,11 @@ def build_record(case: Dict[str, Any]) -> Any:
             proto = SideloadedProtocluster(core, loc, p["tool"], p["product"], neighbourhood_range=p["nbhd"],
                                            extra_qualifiers={k: list(v) for k, v in p["side"]})
         proto.notes.extend(p.get("notes", []))
+        if p.get("t2pks"):
+            from antismash.common.secmet.qualifiers.t2pks import T2PKSQualifier
+            t2 = p["t2pks"]
+            proto.t2pks = T2PKSQualifier(list(t2["starters"]), list(t2["elongations"]), list(t2["classes"]),
+                                         {k: v for k, v in t2["weights"]})
         protos.append(proto)
         rec.add_protocluster(proto)
     cands = case.get("cands", "auto")
@@ -517,7 +550,14 @@ class C10(Property):
         (S + "qualifiers/gene_functions.py", "_GeneFunctionAnnotation.from_string"),
         (S + "qualifiers/nrps_pks.py", "NRPSPKSQualifier.add_from_qualifier"),
         (S + "qualifiers/secmet.py", "SecMetQualifier.from_biopython"),
-        (S + "qualifiers/go.py", "GOQualifier.from_biopython"),
+        (S + "qualifiers/go.py", "GOQualifier.from_biopython"), (S + "qualifiers/go.py", "GOQualifier.to_biopython"),
+        (S + "qualifiers/t2pks.py", "T2PKSQualifier.__init__"), (S + "qualifiers/t2pks.py", "T2PKSQualifier.to_biopython_qualifiers"),
+        (S + "qualifiers/t2pks.py", "T2PKSQualifier.from_biopython_qualifiers"),
+        (S + "qualifiers/secmet.py", "_parse_format"), (S + "qualifiers/secmet.py", "SecMetQualifier.Domain.from_string"),
+        (S + "qualifiers/gene_functions.py", "GeneFunctionAnnotations.add"),
+        (S + "qualifiers/gene_functions.py", "GeneFunctionAnnotations.add_from_qualifier"),
+        (S + "qualifiers/gene_functions.py", "GeneFunctionAnnotations.get_classification"),
+        (S + "features/domain.py", "generate_protein_location_from_qualifiers"),
         (S + "locations.py", "build_location_from_others")]
     RULE = ("generated records built through the public API: input genes/CDS on both strands (single, multi-exon, "
             "origin-spanning, codon_start 1-3, equal sort keys), misc/source features with notes and qualifiers, gene "
@@ -693,7 +733,7 @@ class C10(Property):
                        "n": len(case["domains"]),
                        # a hit score of exactly 0.0 and negative scores are legal (lenient e-value cut-offs)
                        "score": rng.choice([None, 0.0, 0.0, -1.2, 5.3, 250.75]),
-                       "evalue": rng.choice([None, 0.0, 0.12, 1.2e-05, 3.4e-30, 3.4e-30, 1.2345e-07]),
+                       "evalue": rng.choice([None, 0.0, 0.12, 1.2e-05, 3.4e-30] * 4 + [1.2345e-07]),
                        "label": rng.choice([None, "C1_example", "nrpspksdomains_x_PKS_KS.1"]),
                        "database": rng.choice([None, "abmotifs", "Pfam-A.hmm 31.0"]),
                        "detection": rng.choice([None, "hmmscan"]),
@@ -702,9 +742,10 @@ class C10(Property):
                 if dom["kind"] == "pfam":
                     dom["version"] = rng.choice([None, 3, 14])
                     if rng.random() < 0.4:
-                        dom["go"] = sorted(rng.sample([["GO:0004871", "signal transducer activity"],
-                                                       ["GO:0007165", "signal transduction"],
-                                                       ["GO:0016020", "membrane: integral"]], rng.choice([1, 2])))
+                        # in the order of the pfam2go mapping, which is not the order of the ids
+                        dom["go"] = rng.sample([["GO:0009055", "electron transfer activity"], ["GO:0016491", "oxidoreductase activity"],
+                                                ["GO:0016020", "membrane: integral"], ["GO:0004871", "signal transducer activity"],
+                                                ["GO:0007165", "signal transduction"]], rng.choice([1, 2, 2, 3]))
                 case["domains"].append(dom)
                 mine.append(dom)
             asdoms = [d for d in mine if d["kind"] == "asdom"]
@@ -789,8 +830,12 @@ class C10(Property):
         quals: List[List[Any]] = [["locus_tag", [name]]]
         if rng.random() < 0.3:
             quals.append(["gene", ["g" + name]])
+        if rng.random() < 0.1:
+            quals.append(["pseudo", [""]])             # a valueless qualifier as the GenBank parser delivers it
         case["input"].append({"type": "gene", "loc": loc, "quals": [list(q) for q in quals]})
-        cds_quals = [list(q) for q in quals]
+        cds_quals = [list(q) for q in quals if q[0] != "pseudo"]
+        if rng.random() < 0.1:
+            cds_quals.append(["ribosomal_slippage", [""]])
         codon = rng.choice([None, None, "1", "2", "3"]) if codon_ok else rng.choice([None, "1"])
         if codon:
             cds_quals.append(["codon_start", [codon]])
@@ -836,12 +881,24 @@ class C10(Property):
                "category": rng.choice(["PKS", "other", "RiPP", ""]), "side": None, "notes": []}
         if rng.random() < 0.12:
             out["side"] = self._gen_side(rng)
-            out["tool"] = rng.choice(["sidetool", "my tool: v2"])
+            out["tool"] = rng.choice(["sidetool", "my tool: v2"] * 8 + ["externally annotated clusters v2"])
             out["category"] = "other"
             out["cutoff"] = 0
             out["rule"] = "from external annotation"
         if rng.random() < 0.1:
             out["notes"] = ["area note"]
+        if out["side"] is None and rng.random() < 0.3:
+            # type II PKS analysis annotation: starter units always; elongations with their weights, product classes: each or not
+            elong = rng.choice([[], [], ["7 (Score: 120.5; E-value: 1.2e-30)"], ["8|9 (Score: 99.0; E-value: 3e-20)", "7 (Score: 1.0; E-value: 0.5)"]])
+            weights = [] if not elong else rng.choice([[["acetyl-CoA_7", 342.347]], [["acetyl-CoA_8", 384.384], ["malonamyl-CoA_9", 455.5]],
+                                                      [["acetyl-CoA_7", 300.0], ["acetyl-CoA_8", 342.25]]])
+            out["t2pks"] = {"starters": rng.choice([["acetyl-CoA (Score: 0.0; E-value: 0.0)"],
+                                                    ["malonamyl-CoA (Score: 530.1; E-value: 1.5e-160)", "acetyl-CoA (Score: 0.0; E-value: 0.0)"]]),
+                            "elongations": elong, "weights": weights,
+                            "classes": rng.choice([[], ["angucycline"], ["angucycline", "anthracycline"], ["benzoisochromanequinone"]])}
+            if rng.random() < 0.5:
+                out["product"] = "T2PKS"
+                out["rule"] = "cds(T2PKS and x)"
         return out
 
     def _gen_side(self, rng: random.Random) -> List[List[Any]]:
@@ -858,7 +915,7 @@ class C10(Property):
                "side": None}
         if rng.random() < 0.15:
             out["side"] = self._gen_side(rng)
-            out["tool"] = "sidetool"
+            out["tool"] = rng.choice(["sidetool"] * 12 + ["externally annotated regions v2"])
         return out
 
     def _gen_cands(self, rng: random.Random, protos: List[Dict[str, Any]]) -> List[Dict[str, Any]]:
@@ -869,7 +926,7 @@ class C10(Property):
             kind = "single" if len(children) == 1 else rng.choice(["interleaved", "neighbouring", "chemical_hybrid"])
             cand: Dict[str, Any] = {"kind": kind, "children": children}
             if rng.random() < 0.3:
-                cand["smiles"] = "CC(=O)O"
+                cand["smiles"] = rng.choice(["CC(=O)O", "CC(=O)O", "C" * 30 + "(=O)" * 20 + "N" * 40])
             if rng.random() < 0.3:
                 cand["polymer"] = "(mal) + (ccmal)"
             out.append(cand)
@@ -1385,6 +1442,9 @@ class C10(Property):
             return None
         line = {"f": "record", "rec": for_model(obs["state"]), "re_gb": for_model(obs["re_gb"]),
                 "re_json": for_model(obs["re_json"])}
+        if any(" " in (c["smiles"] or "") for c in obs["re_gb"]["cands"]):
+            line["re_gb_smiles"] = dict(line["re_gb"], cands=[dict(c, smiles=c["smiles"].replace(" ", "") if c["smiles"] else c["smiles"])
+                                                              for c in line["re_gb"]["cands"]])
         if obs["state"]["pre_locs"]:
             # prepeptides are judged on their attribute dumps (where the recorded finding
             # KF-C10-prepeptide-location-parts can set the part structure of the location aside), not by the Lean view
@@ -1393,6 +1453,8 @@ class C10(Property):
             line["spec_rec"] = without(line["rec"])
             line["re_gb"] = without(line["re_gb"])
             line["re_json"] = without(line["re_json"])
+            if "re_gb_smiles" in line:
+                line["re_gb_smiles"] = without(line["re_gb_smiles"])
         return line
 
     def judge_prepeptide(self, case: Dict[str, Any], obs: Dict[str, Any], drv: Dict[str, Any]) -> Judgement:
@@ -1450,7 +1512,12 @@ class C10(Property):
         if "skip" in obs:
             return Judgement(True, True, in_scope=False, tags=("skipped:" + obs["skip"],))
         if "err" in obs:
-            return Judgement(True, False, tags=("err:" + obs["err"],),
+            known = None
+            named = any(a.get("side") is not None and a["tool"].startswith("externally annotated")
+                        for a in case.get("subs", []) + case.get("protos", []))
+            if named and obs["err"] in ("RuntimeError", "RecursionError") and "recursion" in str(obs.get("msg")):
+                known = KF_SIDE_TOOL
+            return Judgement(True, False, known=known, tags=("err:" + obs["err"],),
                              detail=f"a round trip raised {obs['err']}: {obs.get('msg')} {obs.get('trace')}")
         assert drv is not None
         if "err" in drv and "w1" not in drv:
@@ -1530,13 +1597,23 @@ class C10(Property):
         if not spec_ok and not (drv["swo"] and drv["sorted"]):
             # the recorded class: the feature ordering is inconsistent on this record (see known_findings.json)
             known = KF_ORDER
-        elif not spec_ok and (not other_bad or other_bad == ["text_fixed"]):
-            known = self._known_class(case, obs)
+        elif not spec_ok:
+            rest = list(other_bad)
+            # GenBank path only: with the spaces taken out of the SMILES strings the re-read areas are the original ones
+            smiles = "spec_gb" in rest and drv.get("spec_gb_smiles") is True and \
+                any(len(c.get("smiles") or "") > 50 for c in (case["cands"] if case.get("cands") != "auto" else []))
+            if smiles:
+                rest.remove("spec_gb")
+            if set(rest) <= {"text_fixed"}:
+                if attr_bad:
+                    known = self._known_class(case, obs, text_excused=smiles)
+                elif smiles:
+                    known = KF_SMILES
         return Judgement(corr, spec_ok, in_scope=scope, known=known, nontrivial=nontrivial, tags=tuple(sorted(set(tags))),
                          detail=detail[:1500])
 
     @staticmethod
-    def _known_class(case: Dict[str, Any], obs: Dict[str, Any]) -> Optional[str]:
+    def _known_class(case: Dict[str, Any], obs: Dict[str, Any], text_excused: bool = False) -> Optional[str]:
         """the recorded attribute-level findings (known_findings.json); a case belongs to one of them only when,
         apart from exactly what the finding describes, no attribute of any feature differs"""
         has_pre = bool(case.get("prepeptides"))
@@ -1587,11 +1664,11 @@ class C10(Property):
                    ((False, False, False, True), lossy(obs["state"]["attrs"]), KF_PRECISION)]
         applicable = [c for c in classes if c[1]]
         for flags, _, kf in applicable:
-            if same(flags) and (obs["text_fixed"] or flags[2]):
+            if same(flags) and (obs["text_fixed"] or flags[2] or text_excused):
                 return kf
         if len(applicable) > 1:
             union = tuple(any(c[0][i] for c in applicable) for i in range(4))
-            if same(union) and (obs["text_fixed"] or union[2]):   # several recorded findings at once
+            if same(union) and (obs["text_fixed"] or union[2] or text_excused):   # several recorded findings at once
                 return applicable[0][2]
         return None
 
